@@ -117,6 +117,10 @@ def precision(p):
 
 
 # --------------------------------------------------------------------------- monitors
+class HookMissing(Exception):
+    """An internal observation point a monitor wants to wrap does not exist in the tree under test."""
+
+
 class Wrapped:
     """Replace module/class attributes by wrappers for the duration of a `with` block."""
 
@@ -124,7 +128,12 @@ class Wrapped:
         self._undo = []
 
     def patch(self, owner, name, make):
-        orig = owner.__dict__[name] if isinstance(owner, type) else getattr(owner, name)
+        try:
+            orig = owner.__dict__[name] if isinstance(owner, type) else getattr(owner, name)
+        except (KeyError, AttributeError):
+            # the observation point does not exist (any more): the monitor cannot be installed.  That is
+            # "inconclusive" (the harness reports it as such), never a violation of the property.
+            raise HookMissing("%s.%s" % (getattr(owner, "__name__", owner), name))
         new = make(orig)
         setattr(owner, name, new)
         self._undo.append((owner, name, orig))
